@@ -103,7 +103,6 @@ class C20(Prop):
         self._digest = tree_digest()
         broken, data = accessgen.regenerate()
         self._data = data
-        self._pregen_broken = list(broken)
         if data is not None:
             new, gone = accessgen.diff_known(data)
             if new:
@@ -112,6 +111,7 @@ class C20(Prop):
             if gone:
                 broken.append("accessgen: knownConflicts entries that are no conflict any more (C20_known_all_real will not "
                               "check; remove them from the list): " + "; ".join("%s %s x %s" % t for t in gone[:12]))
+        self._pregen_broken = list(broken)
         return broken
 
     def classify(self, v):
@@ -169,6 +169,29 @@ class C20(Prop):
                 runs.append(streams_race.race_run(seed * 17 + k, secs, tier, data=data))
             except Exception as e:  # a daemon that does not build / start on the current tree
                 broken.append(f"race stream run {k} failed: {e}")
+        try:
+            sc = streams_race.shared_curve_run(seed, tier, data=data)
+            if sc.get("ran", 0) < 4:
+                broken.append("shared-curve race run did not complete: " + sc.get("log_tail", "")[-300:])
+            runs.append(sc)
+            stats["shared_curve_run"] = {"reports": sc.get("reports"), "triples": [[e["key"], e["kindA"], e["kindB"], e["n"]] for e in sc.get("pairs", [])]}
+        except Exception as e:
+            broken.append(f"shared-curve race run failed: {e}")
+        if broken or self._pregen_broken:
+            # the table has conflicts that are not listed (or the tie broke otherwise): SEARCH for a failing schedule --
+            # one more run per curve kind (pid / linear / function curve shared by all fans), so that whichever object the
+            # new conflict is on is exercised by several control loops and the API at once
+            have = {r.get("curve") for r in runs if not str(r.get("curve", "")).startswith("shared")}
+            base_seed = seed * 17 + nruns
+            for k in range(3 if tier == "quick" else 6):
+                s2 = base_seed + k
+                if tier == "quick" and ["pid", "linear", "function"][s2 % 3] in have and len(have) < 3:
+                    continue
+                try:
+                    runs.append(streams_race.race_run(s2, secs, tier, data=data))
+                    have.add(runs[-1].get("curve"))
+                except Exception as e:
+                    broken.append(f"race stream search run failed: {e}")
         tot = streams_race.summarize(runs)
         vs = []
         if self._digest != tree_digest():
